@@ -171,6 +171,26 @@ def dblScaleAux (v : Rat) : Nat → Nat → Nat
 
 def dblScale (v : Rat) : Nat := dblScaleAux v 30 1
 
+/-- least `s` below the fuel with `v · 10^s` an integer, searching upwards from `s`: the fraction digits a
+    terminating decimal needs -/
+def decScaleAux (v : Rat) : Nat → Nat → Option Nat
+  | 0, _ => none
+  | f + 1, s => if (v * ((pow10 s : Nat) : Rat)).den == 1 then some s else decScaleAux v f (s + 1)
+
+def decScale? (v : Rat) : Option Nat := decScaleAux v 30 0
+
+/-- marker scale of a quotient that does not terminate (Python keeps 28 significant digits of it) -/
+def inexactScale : Nat := 99
+
+/-- fraction digits of `Decimal(sum) / Decimal(count)` (default context, 28 digits): an exact quotient is
+    stripped of trailing zeros down to the "ideal exponent" = the exponent of the sum, so it keeps
+    `max (scale of the sum) (digits the quotient needs)`; a quotient that does not terminate is rounded to 28
+    significant digits, which depend on its value only — marked `inexactScale` -/
+def avgScale (q : Rat) (sumScale : Nat) : Nat :=
+  match decScale? q with
+  | some m => max sumScale m
+  | none => inexactScale
+
 /-- `Literal(pythonNumber, datatype=dt)` -/
 def mkNum (dt : DT) (v : Rat) (sc : Nat) : Term :=
   if dt.isFloating then .num dt v (dblScale v) else if dt.isIntegral then .num dt v 0 else .num dt v sc
@@ -257,7 +277,7 @@ structure AggSpec where
 inductive AccSt
   | counter (n : Nat) (seen : List Term) (seenRows : List Row)
   | sum (v : Rat) (sc : Nat) (dt : Option DT) (seen : List Term)
-  | avg (s : Rat) (cnt : Nat) (dt : Option DT) (seen : List Term)
+  | avg (s : Rat) (sc : Nat) (cnt : Nat) (dt : Option DT) (seen : List Term)
   | ext (v : Val)
   | sample (v : Val)
   | gc (vals : List Term) (seen : List Term)
@@ -267,7 +287,7 @@ def initAcc (a : AggSpec) : AccSt :=
   match a.kind with
   | .count => .counter 0 [] []
   | .sum => .sum 0 0 none []
-  | .avg => .avg 0 0 none []
+  | .avg => .avg 0 0 0 none []
   | .min => .ext none
   | .max => .ext none
   | .sample => .sample none
@@ -302,17 +322,17 @@ def AccSt.update (a : AggSpec) (st : AccSt) (r : Row) : AccSt :=
           match typePromotion (dt.getD .integer) d with
           | none => st
           | some dt' => .sum (v + x) (max sc s) (some dt') (addSeen a.dist t seen)
-  | .avg s cnt dt seen =>
+  | .avg s sc cnt dt seen =>
     match evalE a.arg r with
     | none => st
     | some t =>
       if a.dist && seen.contains t then st
       else match numericOf t with
         | none => st
-        | some (d, x, _) =>
+        | some (d, x, sx) =>
           match avgNextDT dt d with
           | none => st
-          | some dt' => .avg (s + x) (cnt + 1) (some dt') (addSeen a.dist t seen)
+          | some dt' => .avg (s + x) (max sc sx) (cnt + 1) (some dt') (addSeen a.dist t seen)
   | .ext cur =>
     match evalE a.arg r with
     | none => st
@@ -335,10 +355,10 @@ def AccSt.update (a : AggSpec) (st : AccSt) (r : Row) : AccSt :=
 def AccSt.value (a : AggSpec) : AccSt → Val
   | .counter n _ _ => some (.num .integer (n : Rat) 0)
   | .sum v sc dt _ => some (mkNum (dt.getD .integer) v sc)
-  | .avg s cnt dt _ =>
+  | .avg s sc cnt dt _ =>
     if cnt = 0 then some (.num .integer 0 0)
     else if (dt.getD .integer).isFloating then some (mkNum (dt.getD .integer) (s / (cnt : Rat)) 0)
-    else some (.num .decimal (s / (cnt : Rat)) 0)
+    else some (.num .decimal (s / (cnt : Rat)) (avgScale (s / (cnt : Rat)) sc))
   | .ext v => v
   | .sample v => v
   | .gc vals _ => some (.str (joinStr (a.sep.getD [32]) (vals.map lexOf)) [])
